@@ -268,7 +268,7 @@ def findings():
                 res[key] = {'bounds': list(b), 'decoded': [show(x) for x in dec_], 'all_none': all(x is None for x in dec_)}
             except Exception as e:  # noqa: BLE001
                 res[key] = {'bounds': list(b), 'raised': type(e).__name__, 'all_none': False}
-    return res, all(v['all_none'] for v in res.values())
+    return res, all(v['all_none'] for v in res.values())       # NOT-REPRODUCED since the fix b9fc0fc (ValueError refusal)
 
 
 EPS = {'float64': 2.0 ** -52, 'float32': 2.0 ** -23}
